@@ -168,6 +168,7 @@ func c02(tier string) []*explore.Scenario {
 		out = append(out, c02One(cs, 64, bound-1))
 	}
 	out = append(out, c16RPCFam("C02", "2streams", true, 1), c16RPCFam("C02", "unary+stream", false, 1))
+	out = append(out, c02ProxyServerReattach(true, 3, 0), c02ProxyServerReattach(false, 3, 0), c02ProxyServerReattach(true, 1, 1))
 	if tier == "thorough" {
 		out = append(out, c02One([]streamCase{{"Bidi", "pingpong", "echo", 1, 0, 0}, {"Bidi", "pingpong", "echo", 1, 0, 0}, {"Bidi", "pingpong", "echo", 1, 0, 0}}, 64, 1))
 		long2 := c02One([]streamCase{{"Bidi", "sendall", "echo", 40, 0, 0}}, 64, 1)
@@ -374,6 +375,38 @@ func c02ViaDemux(c streamCase, capn int, slowStart bool, bound int) *explore.Sce
 			vsched.Obs("%s", r.Summary())
 			checkC02(r, c)
 			finishDirect(d, w, true)
+		},
+	}
+}
+
+// c02ProxyServerReattach: streams through clients - proxy - Demux - Serve; after the first one
+// the server re-attaches under its name on a new link (the proxy's end of the old link has not
+// failed); the following streams - on the same client connection - complete like the first.
+func c02ProxyServerReattach(preAttach bool, after, bound int) *explore.Scenario {
+	fam := "C02/stream"
+	return &explore.Scenario{
+		Name: fmt.Sprintf("C02/via-proxy/server-reattaches/preattach=%v/streams-after=%d", preAttach, after), Family: fam, Prop: "C02", Bound: bound,
+		Run: func() {
+			w := env.NewWorld()
+			env.MsgSize = 0
+			t := env.NewProxyTopo(w, env.ProxyOpts{Clients: 1, PreAttach: preAttach, Cap: 64})
+			vsched.Settle()
+			c := streamCase{"Bidi", "pingpong", "echo", 3, 0, 0}
+			run := func(tag string) {
+				r := w.Rec(tag, c.kind)
+				w.Handlers[tag] = c.handler()
+				vsched.GoNamed("caller-"+tag, func() { c.runCaller(w, t.CCs[0], context.Background(), r) })
+				vsched.Quiesce()
+				vsched.Obs("%s", r.Summary())
+				checkC02(r, c)
+			}
+			run("first")
+			t.ReattachServer(64)
+			vsched.Quiesce()
+			vsched.Explore(true)
+			for i := 0; i < after; i++ {
+				run(fmt.Sprintf("after%d", i))
+			}
 		},
 	}
 }
